@@ -36,10 +36,10 @@ TProcess == /\ Is("Process")
             /\ viol' = Lb("misaddressed", AsSet(Ev.tg) # Targets(Ev.c))
             /\ Consume
 TDeliver == /\ Is("Deliver")
-            /\ outq[Ev.c] # <<>> /\ Head(outq[Ev.c]) = Ev.hd
+            /\ Ev.j \in 1..Len(outq[Ev.c]) /\ outq[Ev.c][Ev.j] = Ev.hd
             /\ LET o == Out(Ev.out)
                    dl == IF Ev.fault = "corrupt" THEN [Ev.hd EXCEPT !.f = 1] ELSE Ev.hd IN
-                /\ Deliver(Ev.c, Ev.fault, o)
+                /\ DeliverAt(Ev.c, Ev.j, Ev.fault, o)
                 /\ viol' = Labels(Ev.c, dl, o, msgs)
             /\ Consume
 TRestart == Is("Restart") /\ Quiescent /\ UNCHANGED vars /\ viol' = {} /\ Consume
